@@ -86,13 +86,25 @@ pub fn run_reader(file: &[u8], cuts: &[usize], opts: &[bool; 5], transform: png:
 /// the same; `via_setters` (requires `setters_representable(opts)`): the options are installed on a `Decoder::new(..)` through
 /// the public `Decoder::ignore_checksums`, `set_ignore_text_chunk`, `set_ignore_iccp_chunk`
 pub fn run_reader_route(file: &[u8], cuts: &[usize], opts: &[bool; 5], transform: png::Transformations, via_setters: bool) -> String {
+    run_reader_route3(file, cuts, opts, transform, via_setters as u8)
+}
+
+/// ... route 2: through the public setters, called AFTER `Decoder::read_header_info()` has read the IHDR chunk (the switches are
+/// documented to take effect for what is read afterwards; only `set_ignore_adler32` is tied to the start of decompression)
+pub fn run_reader_route3(file: &[u8], cuts: &[usize], opts: &[bool; 5], transform: png::Transformations, route: u8) -> String {
     let file = file.to_vec();
     let cuts = cuts.to_vec();
     let opts = *opts;
+    let via_setters = route >= 1;
     match guarded(move || {
         let rd = PieceReader::new(file, cuts);
         let mut dec = if via_setters && setters_representable(&opts) {
             let mut d = png::Decoder::new(rd);
+            if route == 2 {
+                if let Err(e) = d.read_header_info() {
+                    return format!("read_info:{}", err_class(&e));
+                }
+            }
             apply_decoder_setters(&mut d, &opts);
             d
         } else {
